@@ -12,14 +12,19 @@ ALL_CFGS = list(P.CONFIGS.keys())
 ENABLED = json.load(open(os.path.join(ROOT, 'enabled_configs.json')))
 
 
-def tier_configs(tier):
+def tier_configs(tier, prop=None):
     cfgs = QUICK_CFGS if tier == 'quick' else ALL_CFGS
-    return [c for c in cfgs if c in ENABLED[tier]]
+    out = [c for c in cfgs if c in ENABLED[tier]]
+    # language-level configurations for the two places where the C++ standard selects code (Aligned_allocator, bit_cast)
+    for c in ENABLED.get('extra', {}).get(prop, []) if prop else sorted({x for v in ENABLED.get('extra', {}).values() for x in v}):
+        if c not in out:
+            out.append(c)
+    return out
 
 
 def setup():
     t0 = time.time()
-    cfgs = sorted(set(tier_configs('quick')))
+    cfgs = sorted(set(tier_configs('quick')))      # includes the extra language-level configurations
     res = P.extract_many(cfgs)
     for c in cfgs:
         print('extracted %-14s %s %s' % (c, res[c][0], '(cached)' if res[c][1] else ''))
@@ -239,7 +244,7 @@ def check_property(prop, tier, configs=None, only=None, keep=False, write_eviden
     if prop in PROPS_NA:
         print('property %s is not applicable to this technique: %s' % (prop, PROPS_NA[prop]))
         return 2
-    cfgs = configs or tier_configs(tier)
+    cfgs = configs or tier_configs(tier, prop)
     sc = P.Scratch('run-%s' % prop)
     exit_code = 0
     try:
